@@ -694,3 +694,21 @@ ADD6 = {
 for _pid, _d in ADD6.items():
     for _k, _v in _d.items():
         PROPS[_pid][_k] = (PROPS[_pid].get(_k, "") + " " + _v).strip()
+
+# Round-7 strengthening (appended like the texts above).
+ADD7 = {
+    "C02": dict(rule="c01s: one pipelined sequence in five has stray line ends (CRLF, CRLFCRLF, LF) between two messages: the message that follows is refused wherever the read boundaries fall."),
+    "C04": dict(rule="Schedule tail<k> (the last k = 1..5 bytes of every request arrive 25 ms after the rest); behaviour B<n> (n events of 30000 bytes queued before the response is returned); oracle clause request-not-answered."),
+    "C05": dict(rule="Scripts with a connection: close request header (with expect + body; followed by a second request); sw after the reset in rst mode."),
+    "C10": dict(rule="Suite c10s: 32 / 40 stalled uploads and one abandoned upload. cache = 3 (failing disk) with a client that goes away before its declared length."),
+    "C11": dict(rule="Suite c13w also: an event stream of 8 events in flight at revocation arrives complete, with its terminating chunk."),
+    "C12": dict(rule="Kind y (a handler that queues 60 events before it returns). After every history two more clients try the same port on the IPv6 loopback."),
+    "C13": dict(rule="Phase s (an event stream in flight). A replacement server starts on the same cache directory right after the stopped signal; the f-phase handler reads its uploaded file after the gate."),
+    "C18": dict(rule="Phase Y (removal fence): a call waits for room in a full logger while the owner drops the guard: once the drop has returned nothing more arrives at that logger. Messages / tags of 16383..40000 bytes.",
+                explanation="C18_removed_logger_silent (Props/C18World.lean): in every history, after a dropGuard every later delivery goes to the default or to a logger installed afterwards."),
+    "C19": dict(rule="c19w also: 25..60 small files left by earlier runs followed by events of 30..55 kB (several deletions per event)."),
+    "C20": dict(explanation="C20_disk_fault (Props/C20Disk.lean): a failure to create or write the upload's file is reported as ErrorSavingFile whatever the verdict about the client's bytes, a server error whose response is the constant 500."),
+}
+for _pid, _d in ADD7.items():
+    for _k, _v in _d.items():
+        PROPS[_pid][_k] = (PROPS[_pid].get(_k, "") + " " + _v).strip()
